@@ -85,6 +85,9 @@ def run_property(pid, seed, n, focus=None, budget_s=None, corpus=True, only_corp
     for t in toks:
         checkers.get_tokenizer(t)
     setup_s = time.time() - t0
+    if pid == "C18" and not only_corpus:
+        # exhaustive part of the domain: every ambiguous reporter string of reporters-db x every first/last year (+-1) of its candidate editions
+        extra_cases = list(extra_cases) + [{"text": f"Smith v. Jones, 1 {rep} 1 ({y})", "origin": "exhaustive:edition-boundary"} for rep, y in gen.edition_boundaries()]
 
     def stream():
         if kind == "markup":
